@@ -70,6 +70,8 @@ class VFS(object):
             raise NotImplementedError('text mode open(%r, %r)' % (path, mode))
         if getattr(self, 'fail_writes', False) and ('w' in mode or 'a' in mode):
             raise OSError(errno.ENOSPC, 'No space left on device', path)
+        if getattr(self, 'fail_dump', False) and ('w' in mode or 'a' in mode) and 'dump' in path:
+            raise OSError(errno.ENOSPC, 'No space left on device', path)
         return FakeFile(self, path, mode)
 
 
